@@ -141,6 +141,27 @@ def metadata_cases():
                                    "plugins/db.py": "import pytest\npytest_plugins = [\"plugins.cache\"]\n\n@pytest.fixture\ndef dbx():\n    return 1\n",
                                    "plugins/cache.py": "import pytest\npytest_plugins = [\"plugins.db\", \"plugins.cache\"]\n\n@pytest.fixture\ndef cachex():\n    return 1\n",
                                    "test_uses.py": "def test_u(dbx, cachex, good_fixture):\n    pass\n"})
+    # .pth files whose names continue a candidate name (<pkg>, _<pkg>, __editable__.<pkg>, raw or normalised) with a
+    # non-ASCII character; the editable package's own path file has another name (legacy easy-install.pth)
+    case("pth_names_non_ascii_after_candidate", {
+        f"{sp}/cafe-1.0.dist-info/direct_url.json": '{"dir_info": {"editable": true}, "url": "file:///nonexistent/cafe"}',
+        f"{sp}/cafe-1.0.dist-info/entry_points.txt": "[pytest11]\ncafe = cafe.plugin\n",
+        f"{sp}/My_Pkg-2.dist-info/direct_url.json": '{"dir_info": {"editable": true}}',
+        f"{sp}/cafe\u2013tools.pth": "/nonexistent\n", f"{sp}/_cafe\u00e9.pth": "/nonexistent\n", f"{sp}/__editable__.cafe\u2014x.pth": "/nonexistent\n",
+        f"{sp}/cafe\U0001F600.pth": "/nonexistent\n", f"{sp}/my_pkg\u3000.pth": "/nonexistent\n", f"{sp}/my-pkg\u00df1.pth": "/nonexistent\n",
+        f"{sp}/__editable__.my_pkg\u2013.pth": "/nonexistent\n", f"{sp}/easy-install.pth": "/nonexistent/cafe\n"})
+    # entry-point plugin modules that star-import each other in a cycle, a plugin module that star-imports itself, and
+    # the same cycle entered from a conftest
+    case("plugin_modules_star_import_cycle", {
+        f"{sp}/cyc_plug/__init__.py": "", f"{sp}/cyc_plug-1.0.dist-info/entry_points.txt": "[pytest11]\ncyc = cyc_plug.fixtures\nselfy = cyc_plug.selfy\n",
+        f"{sp}/cyc_plug/fixtures.py": "import pytest\nfrom .helpers import *\nfrom cyc_plug.third import *\n\n@pytest.fixture\ndef cyc_a():\n    return 1\n",
+        f"{sp}/cyc_plug/helpers.py": "import pytest\nfrom .fixtures import *\n\n@pytest.fixture\ndef cyc_b():\n    return 1\n",
+        f"{sp}/cyc_plug/third.py": "import pytest\nfrom .helpers import *\nfrom .third import *\n\n@pytest.fixture\ndef cyc_c():\n    return 1\n",
+        f"{sp}/cyc_plug/selfy.py": "import pytest\nfrom .selfy import *\nfrom cyc_plug.selfy import *\n\n@pytest.fixture\ndef cyc_s():\n    return 1\n",
+        "wsplug/__init__.py": "", "wsplug/a.py": "import pytest\nfrom .b import *\n\n@pytest.fixture\ndef ws_a():\n    return 1\n",
+        "wsplug/b.py": "import pytest\nfrom .a import *\n\n@pytest.fixture\ndef ws_b():\n    return 1\n",
+        f"{sp}/wsplug-0.1.dist-info/entry_points.txt": "[pytest11]\nws = wsplug.a\n",
+        "conftest.py": GOOD_CONFTEST + "from wsplug.a import *\n", "test_uses.py": "def test_u(cyc_a, cyc_b, cyc_s, ws_a, ws_b, good_fixture):\n    pass\n"})
     case("non_utf8_python", {"test_bad.py": b"def test_x(good_fixture):\n    s = '\xff\xfe'\n", "sub/conftest.py": b"\xff\xfe\x00\x00"})
     case("dir_named_like_test", {"test_dir.py/inner.txt": "x", "sub/conftest.py/x.txt": "y", "sub/test_ok.py": GOOD_TEST, "sub/deep_test.py/conftest.py": GOOD_CONFTEST})
     return cases
